@@ -175,8 +175,16 @@ class LazyList:
         # Should work for infinite lists
         self_clone = vyxal.helpers.deep_copy(self)
         other_clone = vyxal.helpers.deep_copy(other)
-        item = next(self_clone)
-        other_item = next(other_clone)
+        end = object()
+        item = next(self_clone, end)
+        other_item = next(other_clone, end)
+        if item is end or other_item is end:
+            # an empty list is a prefix of everything; a StopIteration leaking
+            # from here was taken for "end of list" by whoever was iterating
+            # further up, silently cutting results and skipping lambda epilogues
+            if item is end and other_item is end:
+                return 0
+            return -1 if item is end else 1
         while item == other_item:
             try:
                 item = next(self_clone)
